@@ -5,7 +5,7 @@ from vlib.core import Sub, Failure, note_excluded
 from vlib import env, lists as L, aliquot as aq
 
 pytrs = env.import_pytrs()
-from pytrs import Tract, PLSSDesc  # noqa: E402
+from pytrs import Tract, PLSSDesc, TractList  # noqa: E402
 
 ID = "C06"
 RULE = (
@@ -214,6 +214,40 @@ def make_tract(text, cfg, via):
     return Tract(text, parse_qq=True, config=cfg), want
 
 
+def _dups(tr):
+    return sorted(f for f in map(str, tr.w_flags) if f.startswith(("dup_lot<", "dup_qq<")))
+
+
+def in_lists(text, cfg, suppress):
+    """The tracts of a multi-section block, re-parsed together under the other division setting; tracts that were configured
+    differently, parsed together as one list: each must give what a stand-alone Tract with its settings gives."""
+    fails = []
+    base = ",".join(x for x in cfg.split(",") if x and not x.startswith("suppress_lot_divs"))
+    cfg_of = {True: ",".join(x for x in (base, "suppress_lot_divs") if x), False: ",".join(x for x in (base, "suppress_lot_divs.False") if x)}
+    ref = {k: Tract(text, parse_qq=True, config=v) for k, v in cfg_of.items()}
+    d = PLSSDesc(f"T154N-R97W Sec 14, 15: {text}", config=cfg, parse_qq=True)
+    if [x.trs for x in d.tracts] == ["154n97w14", "154n97w15"]:
+        d.parse_tracts(suppress_lot_divs=not suppress)
+        for k, pt in enumerate(d.tracts):
+            r = ref[not suppress]
+            if (list(pt.lots), list(pt.qqs), _dups(pt)) != (list(r.lots), list(r.qqs), _dups(r)):
+                fails.append(Failure("multisec_reparsed", f"PLSSDesc('T154N-R97W Sec 14, 15: ' + {text!r}, {cfg!r}, parse_qq=True) then parse_tracts(suppress_lot_divs={not suppress}): "
+                                     f"tract {k} has {pt.lots} {pt.qqs} {_dups(pt)}, a stand-alone Tract with these settings {r.lots} {r.qqs} {_dups(r)}", text=text, config=cfg))
+                return fails
+    else:
+        note_excluded("description_not_two_tracts_in_plssdesc")
+    for order in ((True, False), (False, True)):
+        members = [Tract(text, trs=f"154n97w{k + 1:02d}", config=cfg_of[sup]) for k, sup in enumerate(order)]
+        TractList(members).parse_tracts()
+        for sup, m in zip(order, members):
+            r = ref[sup]
+            if (list(m.lots), list(m.qqs), _dups(m)) != (list(r.lots), list(r.qqs), _dups(r)):
+                fails.append(Failure("mixed_settings_list", f"TractList of Tract({text!r}) configured {[cfg_of[x] for x in order]}, parse_tracts(): the one configured {cfg_of[sup]!r} has "
+                                     f"{m.lots} {m.qqs} {_dups(m)}, parsed alone it has {r.lots} {r.qqs} {_dups(r)}", text=text, config=cfg))
+                return fails
+    return fails
+
+
 def oracle(c):
     cfg = c["config"]
     text = full_text(c)
@@ -284,6 +318,8 @@ def oracle(c):
             fails.append(Failure("via_plssdesc", f"PLSSDesc({tmpl.format(text)!r}, {cfg!r}): tract has lots/qqs/lot_acres {got}, the stand-alone Tract({text!r}) has {want}",
                                  tract_desc=pt.desc, **ctx))
             break
+    if not fails:
+        fails += in_lists(text, cfg, suppress)
     # duplicate warnings exactly when warranted
     got_dl = any(f.startswith("dup_lot<") for f in t.w_flags)
     got_dq = any(f.startswith("dup_qq<") for f in t.w_flags)
